@@ -370,12 +370,19 @@ fn mutate(rng: &mut Rng, base: &[u8], donor: &[u8], log: &mut Vec<String>) -> Ve
                     let ends: Vec<usize> = secs[i].1.iter().enumerate().filter(|(_, x)| **x == 0x0b).map(|(p, _)| p).collect();
                     if !ends.is_empty() {
                         let p = *rng.pick(&ends);
-                        let repl: &[u8] = match rng.below(5) {
+                        let repl: &[u8] = match rng.below(11) {
                             0 => &[0x41, 1, 0x6a, 0x0b],
                             1 => &[0x01, 0x0b],
                             2 => &[0x0b, 0x0b],
                             3 => &[0x23, 0x7f, 0x0b],
-                            _ => &[0xd2, 0x7f, 0x0b],
+                            4 => &[0xd2, 0x7f, 0x0b],
+                            // extended-const arithmetic on extreme operands (i32 / i64 MAX and MIN): a constant folder must wrap, not overflow
+                            5 => &[0x41, 0xff, 0xff, 0xff, 0xff, 0x07, 0x6a, 0x0b],
+                            6 => &[0x41, 0x80, 0x80, 0x80, 0x80, 0x78, 0x6b, 0x0b],
+                            7 => &[0x41, 0xff, 0xff, 0xff, 0xff, 0x07, 0x6c, 0x0b],
+                            8 => &[0x42, 0xff, 0xff, 0xff, 0xff, 0xff, 0xff, 0xff, 0xff, 0xff, 0x00, 0x7c, 0x0b],
+                            9 => &[0x42, 0x80, 0x80, 0x80, 0x80, 0x80, 0x80, 0x80, 0x80, 0x80, 0x7f, 0x7d, 0x0b],
+                            _ => &[0x42, 0xff, 0xff, 0xff, 0xff, 0xff, 0xff, 0xff, 0xff, 0xff, 0x00, 0x7e, 0x0b],
                         };
                         secs[i].1.splice(p..p + 1, repl.iter().cloned());
                         log.push(format!("initexpr id{}@{}", secs[i].0, p));
